@@ -204,4 +204,61 @@ Proof.
   apply community_same.
 Qed.
 
+(* the nested dispatch of re-injected datagrams preserves the tables as well *)
+Definition is_reinject (a : action) : bool := match a with Reinject _ _ _ => true | _ => false end.
+
+Lemma expand_other fuel rnd ns (nd : node) a tl :
+  is_reinject a = false ->
+  expand enc fuel rnd ns nd (a :: tl) = (do (nd2, a2) <- expand enc fuel rnd ns nd tl; Ok (nd2, a :: a2)).
+Proof. intros H. destruct fuel; destruct a; try discriminate H; reflexivity. Qed.
+
+Lemma expand_reinj_O rnd ns (nd : node) o p c tl :
+  expand enc O rnd ns nd (Reinject o p c :: tl) = (do (nd2, a2) <- expand enc O rnd ns nd tl; Ok (nd2, Reinject o p c :: a2)).
+Proof. reflexivity. Qed.
+
+Lemma expand_reinj_S f rnd ns (nd : node) o p c tl :
+  expand enc (S f) rnd ns nd (Reinject o p c :: tl) =
+  (do (nd1, a1) <- on_packet_from_circuit enc nd o p c rnd ns;
+   do (nd1', a1') <- expand enc f rnd ns nd1 a1;
+   do (nd2, a2) <- expand enc (S f) rnd ns nd1' tl;
+   Ok (nd2, Reinject o p c :: a1' ++ a2)).
+Proof. reflexivity. Qed.
+
+Lemma expand_nil fuel rnd ns (nd : node) : expand enc fuel rnd ns nd [] = Ok (nd, []).
+Proof. destruct fuel; reflexivity. Qed.
+
+Lemma expand_same : forall fuel rnd ns (nd : node) acts nd' acts',
+  expand enc fuel rnd ns nd acts = Ok (nd', acts') -> same nd nd'.
+Proof.
+  induction fuel as [|f IHf]; intros rnd ns nd acts; revert nd;
+    induction acts as [|a tl IHa]; intros nd nd' acts'.
+  - rewrite expand_nil. intros H; done_same H.
+  - destruct (is_reinject a) eqn:Ea.
+    + destruct a; try discriminate Ea. rewrite expand_reinj_O.
+      destruct (expand enc 0 rnd ns nd tl) as [[n2 a2]|] eqn:E; cbn [bind]; [|discriminate].
+      intros H. injection H as <- _. apply (IHa _ _ _ E).
+    + rewrite (expand_other _ _ _ _ _ _ Ea).
+      destruct (expand enc 0 rnd ns nd tl) as [[n2 a2]|] eqn:E; cbn [bind]; [|discriminate].
+      intros H. injection H as <- _. apply (IHa _ _ _ E).
+  - rewrite expand_nil. intros H; done_same H.
+  - destruct (is_reinject a) eqn:Ea.
+    + destruct a; try discriminate Ea. rewrite expand_reinj_S.
+      destruct (on_packet_from_circuit enc nd origin data cid rnd ns) as [[n1 a1]|] eqn:E1; cbn [bind]; [|discriminate].
+      destruct (expand enc f rnd ns n1 a1) as [[n1' a1']|] eqn:E2; cbn [bind]; [|discriminate].
+      destruct (expand enc (S f) rnd ns n1' tl) as [[n2 a2]|] eqn:E3; cbn [bind]; [|discriminate].
+      intros H. injection H as <- _.
+      apply (same_trans nd n1 n2); [apply (pfc_same _ _ _ _ _ _ _ _ E1)|].
+      apply (same_trans n1 n1' n2); [apply (IHf _ _ _ _ _ _ E2) | apply (IHa _ _ _ E3)].
+    + rewrite (expand_other _ _ _ _ _ _ Ea).
+      destruct (expand enc (S f) rnd ns nd tl) as [[n2 a2]|] eqn:E; cbn [bind]; [|discriminate].
+      intros H. injection H as <- _. apply (IHa _ _ _ E).
+Qed.
+
+Lemma on_packet_rec_same (nd : node) src pkt rnd ns nd' acts :
+  on_packet_rec enc dec nd src pkt rnd ns = Ok (nd', acts) -> same nd nd'.
+Proof.
+  unfold on_packet_rec. destruct (on_packet enc dec nd src pkt rnd ns) as [[n1 a1]|] eqn:E; cbn [bind]; [|discriminate].
+  intros H. apply (same_trans nd n1 nd'); [apply (on_packet_same _ _ _ _ _ _ _ E) | apply (expand_same _ _ _ _ _ _ _ H)].
+Qed.
+
 End Tables.
